@@ -32,6 +32,13 @@ def step (st : St) (l : Line) : St × Verdict :=
       if l.impl == ["NOLISTEN"] then (st, .bad "listener did not come up")
       else ({ cfg := some ⟨u, h, a, r, redir == "1"⟩ }, .ok)
     | _, _, _, _ => (st, .bad "listener args")
+  | "viaserver", [redir, edits] =>
+    -- the listener as the teamserver runs it (started, then edited `edits` times): the recorded sender is the forwarded-for
+    -- header exactly when the profile says the teamserver sits behind a redirector - whatever was edited in between
+    let want := if redir == "1" then "sender=203.0.113.8" else "sender=127.0.0.1"
+    if l.impl == [want] then (st, .ok)
+    else if l.impl == ["STARTERR"] || l.impl == ["NOLISTEN"] then (st, .bad s!"viaserver: {l.impl}")
+    else (st, .specFail "C12.sender-address" s!"behind a redirector = {redir}, listener edited {edits} time(s): a new agent that sent X-Forwarded-For: 203.0.113.8 from 127.0.0.1 is recorded with {l.impl}, expected {want}")
   | "req", [peer, method, uri, hs] =>
     match st.cfg, hexStr method, hexStr uri, hexPairs hs, kv "class" l.impl, kv "reached" l.impl, kv "extip" l.impl, kv "headers" l.impl with
     | some cfg, some m, some u, some hdrs, some cls, some reached, some ext, some rh =>
